@@ -7,7 +7,6 @@ claim('C06', 'model_checking',
 NA.update({
  'C19': 'planned (regex -> z3 against reference statement grammars) but not built in the time available; not replaced by another technique',
  'C35': 'planned (C-semantics interpretation of the transpiled kernel + ISO-C wrapper) but not built in the time available',
- 'C36': 'planned (Python-semantics interpretation of the generated function) but not built in the time available',
  'C02': 'pure text/structure identity over programs: no value domain for a solver (behavioural shadow covered by C01)',
  'C14': 'tree/node-identity property; CrossHair cannot execute Transformer (proxy intolerance on node hashing) and a hand encoding would model, not run, the code',
  'C15': 'pure structural search result; visitors not executable symbolically, no value domain',
@@ -117,3 +116,8 @@ claim('C39', 'translation_validation',
       'A driver + kernels project is written to a scratch directory and processed by the real Scheduler with ParametriseTransformation (5 choices of parametrised arguments / values, replace_by_value on/off). (a) z3 proves the transformed driver equivalent to the original for every input in which the parametrised dummies have the fixed values; (b) z3 proves that no input with a non-matching value escapes the generated guard (the transformed driver aborts).',
       TV_NOTE + ' Outside: custom abort / replace callbacks.',
       'translation validation (z3 equivalence under the matching assumption) + SMT unreachability of a non-aborting mismatch', 'E-SMT', 'DESIGN.md#C39')
+
+claim('C36', 'translation_validation',
+      'Bounded translation validation: the real FortranPythonTransformation + pygen are run on each of 79 Fortran kernels (arithmetic and literals, integer division, real->integer conversion, logicals, IF chains, DO loops with positive/negative/zero-trip ranges, DO WHILE, mapped intrinsics, casts, 1-D/2-D/local arrays, array sections, whole-array statements, non-default lower bounds) x size instances; the original is interpreted with Fortran semantics and the generated function (Python ast) with Python/numpy semantics on the same symbolic inputs, called the way the repository tests call it; z3 decides for EVERY input within the bounds whether a returned scalar or array element differs or the function raises; models are replayed (gfortran build of the original vs CPython+numpy run of the generated module).',
+      'Trusted: vlib/fsmt (Fortran semantics, self-validated against gfortran in C01) and vlib/fsmt/pysem.py (Python/numpy semantics; every counterexample is confirmed by CPython+numpy, an unconfirmed one is reported as inconclusive), z3. Bounds: |ints| <= 6, reals exact (uninterpreted first), extents 3-5, exponents 0..3, while-loops 5 iterations with unwinding condition. Outside: with_dace / invert_indices, derived types, real32 rounding, np.int32 overflow, SELECT CASE / WHERE / EXIT (no pygen handler).',
+      'translation validation: symbolic interpretation of Fortran IR and of the generated Python ast + SMT equivalence (z3), gfortran/CPython replay', 'E-SMT', 'DESIGN.md#C36')
